@@ -19,6 +19,9 @@ def run(res, only=None):
     # code -> spec on arbitrary unit quaternions: Hamilton product and rotation recorded per build, judged by TLC (Trace_Poly.tla)
     core.record_and_validate(res, "poly", [c for c in cfgs if c != "sse2-rel"], draws=12 if res.tier == "quick" else 400, module="Trace_Poly",
                              chunks=1 if res.tier == "quick" else 8, expect_kinds=("poly",), ops=["quat_mul", "quat_rot"])
+    # component-wise quaternion operations (+, -, negation, scalar * and /) on random bit patterns (Trace_Lanes.tla)
+    core.record_and_validate(res, "mat", [c for c in cfgs if c in ("sse2", "scalar", "coresimd")], draws=3 if res.tier == "quick" else 60,
+                             chunks=1 if res.tier == "quick" else 4, expect_kinds=("f1", "f2"), tys=["Quat", "DQuat"])
     res.exhaustive = True
     res.rule = ("all pairs of quaternions with integer components in -1..1 (quick; -2..2 with a 1/4 stride of the right factor in thorough): "
                 "Hamilton product (every spelling incl. *= and Product), conjugate, +, -, neg, scalar *, /, dot, length_squared -- exact integers; "
